@@ -258,11 +258,18 @@ Plan gen_threads(u64 seed, u64 idx, const RunCtx & ctx)
   p.hdr["ntasks"] = std::to_string(nt);
   std::vector<i64> quads((size_t)nt, 0);
   bool any_ga = false;
+  // twins: with probability 0.4 every client runs the SAME configuration - the only way two threads meet
+  // in the same per-nuclide code (a function-local static there is invisible to clients of different nuclides)
+  bool twins = r.chance(0.4);
+  GenCfg twin_cfg; i64 twin_q = 0;
+  if (twins) twin_cfg = pick_thread_cfg(r, twin_q);
+  p.hdr["twins"] = twins ? "1" : "0";
   for (int t = 0; t < nt; t++) {
     int rounds = r.chance(0.8) ? 1 : 2;
     for (int k = 0; k < rounds; k++) {
       i64 q = 0;
-      GenCfg c = pick_thread_cfg(r, q);
+      GenCfg c = (twins && k == 0) ? twin_cfg : pick_thread_cfg(r, q);
+      if (twins && k == 0) q = twin_q;
       quads[(size_t)t] += q;
       if (c.mode >= 21) any_ga = true;
       Op o; o.k = "t_cfg"; o.a = {t, c.cat, c.level, c.mode, c.emin_keV, c.emax_keV, c.mdl}; o.s = {c.nuc};
@@ -327,6 +334,35 @@ Plan gen_threads(u64 seed, u64 idx, const RunCtx & ctx)
   return p;
 }
 
+/// Systematic companion: run index enumerates the configuration space (69 background names, then every
+/// catalogued DBD triple with < 1500 quadratures); two clients run the SAME configuration with a dense
+/// schedule, so that per-nuclide code is executed by two threads (statics, caches) for every nuclide.
+Plan gen_threads_twins(u64 seed, u64 idx, const RunCtx &)
+{
+  Plan p; p.suite = "threads-twins"; p.seed = seed; p.idx = idx;
+  Rng r(hmix(hmix(seed, hstr("threads-twins")), idx));
+  const auto & names = bkg_names();
+  static std::vector<DbdEntry> dbd;
+  if (dbd.empty()) for (auto & e : dbd_catalogue()) if (e.qng_calls < 1500) dbd.push_back(e);
+  u64 total = names.size() + dbd.size();
+  u64 pos = (idx + hmix(seed, 99) % total) % total;
+  GenCfg c; i64 quads = 0;
+  if (pos < names.size()) { c.cat = 2; c.nuc = names[pos]; }
+  else { const DbdEntry & e = dbd[pos - names.size()]; c.cat = 1; c.nuc = e.nuc; c.level = e.level; c.mode = e.mode; quads = e.qng_calls; }
+  p.hdr["ntasks"] = "2"; p.hdr["twins"] = "1";
+  for (int t = 0; t < 2; t++) {
+    Op o; o.k = "t_cfg"; o.a = {t, c.cat, c.level, c.mode, -1, -1, 0}; o.s = {c.nuc}; p.ops.push_back(o);
+    Op in; in.k = "t_init"; in.a = {t, (i64)r.below(1000)}; p.ops.push_back(in);
+    Op sh; sh.k = "t_shoot"; sh.a = {t, (i64)r.below(1000), 4}; p.ops.push_back(sh);
+  }
+  { Op f; f.k = "first"; f.a = {(i64)r.below(2)}; p.ops.push_back(f); }
+  for (int from = 0; from < 2; from++) {
+    i64 span = 80 + quads * 8;
+    for (int i = 0; i < 12; i++) { Op o; o.k = "sw"; o.a = {0, 1 + (i64)r.below((u64)span), from, 1 - from}; p.ops.push_back(o); }
+  }
+  return p;
+}
+
 std::vector<Op> simplify_threads(const Op & op)
 {
   std::vector<Op> v;
@@ -338,6 +374,9 @@ std::vector<Op> simplify_threads(const Op & op)
 
 SuiteRegistrar reg_threads({"threads", "2-3 clients on real threads under the seeded scheduler: handler-swap windows, mutexes, statics (C12)", gen_threads, run_threads,
                             simplify_threads, nullptr});
+
+SuiteRegistrar reg_threads_twins({"threads-twins", "two clients running the same configuration, enumerated over all nuclides and DBD triples (C12)", gen_threads_twins,
+                                  run_threads, simplify_threads, nullptr});
 
 } // namespace
 } // namespace sim
